@@ -171,6 +171,42 @@ pub mod proofs {
         assert!(same(one[0][i], (start as u32 + 64 + i as u32) as f32));   // position carried across calls
     }
 
+    /// every wrapper forwards EVERY call (any number of outputs, including none) to the wrapped node: observed
+    /// through a node whose effect is not in its output buffers
+    struct Counter { calls: u32, last_inputs: usize, last_outputs: usize }
+    impl Node for Counter {
+        fn process(&mut self, inputs: &[Input], output: &mut [Buffer]) {
+            self.calls += 1; self.last_inputs = inputs.len(); self.last_outputs = output.len();
+        }
+    }
+    static mut FN_CALLS: u32 = 0;
+    fn counting_fn(_i: &[Input], _o: &mut [Buffer]) { unsafe { FN_CALLS += 1; } }
+    #[kani::proof] #[kani::unwind(6)]
+    pub fn c16_wrappers_forward_every_call() {
+        let a = [any_buffer()];
+        let inputs = [Input::verif_new(&a)];
+        let n_out: usize = kani::any();
+        kani::assume(n_out <= 1);
+        let mut outs = [any_buffer()];
+        let out: &mut [Buffer] = &mut outs[..n_out];          // zero or one output buffer
+        let mut c = Counter { calls: 0, last_inputs: 9, last_outputs: 9 };
+        { let mut r: &mut Counter = &mut c; r.process(&inputs, out); }
+        assert!(c.calls == 1 && c.last_inputs == 1 && c.last_outputs == n_out);
+        let mut b: Box<Counter> = Box::new(Counter { calls: 0, last_inputs: 9, last_outputs: 9 });
+        b.process(&inputs, out);
+        assert!(b.calls == 1 && b.last_outputs == n_out);
+        // BoxedNode / BoxedNodeSend own the node: observe through a shared counter
+        static mut SHARED: u32 = 0;
+        struct Shared;
+        impl Node for Shared { fn process(&mut self, _i: &[Input], _o: &mut [Buffer]) { unsafe { SHARED += 1; } } }
+        let mut bn = BoxedNode::new(Shared); bn.process(&inputs, out);
+        assert!(unsafe { SHARED } == 1);
+        let mut bs = BoxedNodeSend::new(Shared); bs.process(&inputs, out);
+        assert!(unsafe { SHARED } == 2);
+        let mut f: fn(&[Input], &mut [Buffer]) = counting_fn; f.process(&inputs, out);
+        assert!(unsafe { FN_CALLS } == 1);
+    }
+
     // ------------------------------------------------------------------ wrappers behave like the node they wrap
     fn free_fn(inputs: &[Input], output: &mut [Buffer]) { Pass.process(inputs, output) }
     #[kani::proof] #[kani::unwind(66)]
